@@ -75,6 +75,7 @@ class ParamsSuite(ProgBaseSuite):
         # ---- A / D fields
         n = 500 if tier == "quick" else 15000
         vols = ["0", "1/8", "25/2", "200", "950", "951", "1000", "7158278", "7158279", "1/1024", "12345/8", "-1", "-1/1024", "nan", "inf", "-inf",
+                "1/16384", "1/1048576", "3/65536",  # below 1e-4: must still be written as plain decimals
                 {"bad": "none"}, {"bad": "str"}, {"int": 5}, {"int": 0}, {"int": 2000},
                 # just above each worklist max_volume used by wlcfg (closer than the two-decimal rounding of the record)
                 fs(Fraction(950) + Fraction(1, 1024)), fs(Fraction(200) + Fraction(1, 512)), fs(Fraction(1000) + Fraction(3, 1024)), fs(Fraction(25, 2) + Fraction(1, 1024))]
@@ -146,7 +147,8 @@ class ParamsSuite(ProgBaseSuite):
             r = rng.random()
             if r < 0.35:
                 lines = [rtext(rng, semi=0.08) for _ in range(rng.choice([1, 1, 2, 3]))]
-                ops.append({"op": "comment", "text": rng.choice(["\n".join(lines), " " + lines[0] + "  ", "", None, "\n", " \n x \n"])})
+                ops.append({"op": "comment", "text": rng.choice(["\n".join(lines), " " + lines[0] + "  ", "", None, "\n", " \n x \n",
+                                                                "\t" + lines[0], lines[0] + "\r\n" + lines[-1] + "\r\n", "\t", "\u00a0" + lines[0] + "\u00a0", "a\u0085\nb\x0b"])})
             elif r < 0.6:
                 ops.append({"op": "wash", "scheme": rng.choice([1, 2, 3, 4, 0, 5, -1, {"other": "float2"}, {"other": "str"}, {"other": "none"}])})
             elif r < 0.7:
